@@ -28,7 +28,7 @@ ANCHORS = ["coxeter.shapes.polyhedron:Polyhedron.compute_form_factor_amplitude",
 REQUIRED_MONITORS = ["Polyhedron.form_factor", "Polygon.form_factor", "Sphere.form_factor", "F(-q)=conj", "translation-phase",
                      "batch-vs-single", "oracle-second-opinion:box"]
 REQUIRED_CLASSES = ["q:zero", "q:along-normal", "q:perp-edge", "q:axis", "q:approach-normal", "q:approach-zero", "batch:(1,3)",
-                    "density!=1", "polygon:cw", "polygon:ccw", "mesh:voxel", "sphere:extreme-units"]
+                    "density!=1", "polygon:cw", "polygon:ccw", "mesh:voxel", "sphere:extreme-units", "batch:all-special"]
 WATCHDOG = {"quick": 1800, "thorough": 14400}
 _cache = {}
 
@@ -344,6 +344,15 @@ def run_case(i, rng, rec, tier, state):
     rho = float(rng.choice([0.5, 2.0, -1.5, 3.25]))
     rec.cls("density!=1")
     _call(rec, s, q[:5].copy(), name, info, density=rho)
+    # batches in which *every* wave vector takes a special branch (all zero; for polygons all along the normal), with a
+    # density: the postcondition judges them like any other call
+    rec.cls("batch:all-special")
+    _call(rec, s, np.zeros((1, 3)), name, info, density=rho)
+    _call(rec, s, np.zeros((3, 3)), name, info, density=rho)
+    if name == "Polygon":
+        nz = relkw["tdir"] / relkw["d"]
+        _call(rec, s, np.array([0.7 * nz, -2.3 * nz, 0 * nz]), name, info, density=rho)
+        _call(rec, s, np.array([1.9 * nz]), name, info, density=rho)
     if (i // 4) % 2 == 0:
         # evaluate - resize / move - evaluate again on the same object: the monitor judges the second evaluation against
         # the current geometry, so anything remembered from the first evaluation shows
